@@ -491,10 +491,9 @@ impl io::Write for SimWriter {
     }
 
     fn flush(&mut self) -> io::Result<()> {
+        // flushing is not a fault point: C05 says nothing about flush, and an
+        // implementation that flushes (or does not) is equally correct
         self.flushes += 1;
-        if self.maybe_interrupt() {
-            return Err(io::Error::new(io::ErrorKind::Interrupted, "sim: EINTR"));
-        }
         Ok(())
     }
 }
